@@ -131,6 +131,10 @@ def _inputs(ctx, quick):
     # lagging honest witness still has; the witness advances during the wait or not), all properties
     out["r_client"].append(ctx.tlc("C09_client", "C09_fwdlunatic.cfg", must_pass=True, timeout=900, workers=4,
                                    label="client_fwdlunatic"))
+    # the duplicate-slot family (a forged header whose own set lists one validator of a coalition
+    # below the trust level in several slots, primary and witnesses serving it), all properties
+    out["r_client"].append(ctx.tlc("C09_client", "C09_dupslots.cfg", must_pass=True, timeout=900, workers=4,
+                                   label="client_dupslots"))
     # the unweakened base of the weak family must pass (quick: covered by the run above)
     if not quick:
         ctx.tlc("C09_client", "C09_weak_none.cfg", must_pass=True, timeout=900, workers=4, label="weak_base")
@@ -185,6 +189,18 @@ def _inputs(ctx, quick):
                 v["steps"] = [dict(st, sched=list(perm)) for st in r["steps"]]
                 v["src"] = "attack:" + w + ":reordered"
                 runs.append(v)
+    # the duplicate-slot family, always replayed (the simulation may not draw it): the forged header
+    # served by the primary and by one or both witnesses, both modes, both reply orders
+    for prim in ("dup3", "dup4"):
+        for wp in ((prim, prim), (prim, "honest"), ("honest", prim), (prim, "silent")):
+            for mode in ("skip", "seq"):
+                for sched in (["w1", "w2"], ["w2", "w1"]):
+                    tgt = 3 if prim == "dup3" else 4
+                    runs.append({"prov": {"p": personas[prim], "w1": personas[wp[0]], "w2": personas[wp[1]]},
+                                 "primary": "p", "wits": ["w1", "w2"], "cfg": _cfg(mode), "root": 1, "root_hid": "R1",
+                                 "start_sched": ["w1", "w2"], "src": "family:dupslots",
+                                 "steps": [{"op": "Verify", "h": tgt, "now": 60, "sched": sched},
+                                           {"op": "Verify", "h": 4, "now": 60, "sched": sched}]})
     out["runs"] = runs
     out["r_sim"] = rs
     return out
